@@ -1083,7 +1083,10 @@ class QuantityMeta(ClassWithDefinitionMeta):
         unit._qty_cls = cls
         if isinstance(define_as, Term):
             unit._definition = define_as
-            unit._equiv = equiv or define_as.normalized().num_elem or ONE
+            if equiv is None and cls._ref_unit is not None:
+                # scale relative to the reference unit
+                equiv = define_as.normalized().num_elem or ONE
+            unit._equiv = equiv
         else:
             assert define_as is None, "Unknown type of Unit definition."
             unit._definition = None
